@@ -65,6 +65,13 @@ func main() {
 		os.Exit(cmdServe(os.Args[2:]))
 	case "replay":
 		os.Exit(cmdReplay(os.Args[2:]))
+	case "warm":
+		// build the native replay binary once so that the go build cache is warm
+		os.MkdirAll("/verif/out/warm", 0755)
+		if out, err := buildReplay("/repo", "/verif/harness", "/verif/out/warm", "/verif/out/warm/replay.test"); err != nil {
+			fmt.Fprintln(os.Stderr, out, err)
+			os.Exit(1)
+		}
 	default:
 		fmt.Fprintln(os.Stderr, "unknown command", os.Args[1])
 		os.Exit(2)
